@@ -64,7 +64,7 @@ TEXT = {
  "C19": ("Real BlobStore against a byte-exact model with chunk reference-count conservation at quiescence, sizes around chunk boundaries, damage injection for verify, and concurrent writers/deleters/collectors.",
          "Held on the programs/interleavings explored.",
          "runtime monitoring: model + conservation oracle under concurrency"),
- "C20": ("Round-trip oracles for every codec over generated values, and robustness of every decoder on truncated/bit-flipped/random bytes and on structurally valid encodings of hostile values (unsorted/duplicate/out-of-range position lists, mismatched counts, extreme dimensions, inconsistent tensor-train cores; in memory and through snapshot files) with a counting allocator for allocation limits; tensor-train accuracy on dense full-rank inputs and prescribed clustered / degenerate spectra; crash containment in child processes; Miri on the pure codecs.",
+ "C20": ("Round-trip oracles for every codec over generated values (incl. ids and gaps at every varint group boundary 2^k-1, 2^k, 2^k+1 and runs of up to 2^22+1 elements), and robustness of every decoder on truncated/bit-flipped/random bytes and on structurally valid encodings of hostile values (unsorted/duplicate/out-of-range position lists, mismatched counts, extreme dimensions, inconsistent tensor-train cores; in memory and through snapshot files) with a counting allocator for allocation limits; tensor-train accuracy on dense full-rank inputs and prescribed clustered / degenerate spectra; crash containment in child processes; Miri on the pure codecs.",
          "Held on the inputs explored.",
          "runtime monitoring: round-trip and robustness oracles with allocation monitor; Miri on pure codecs"),
 }
